@@ -100,10 +100,10 @@ pub fn watchdog() -> i32 {
     std::env::set_var("GSIM_STALL_S", "2");
     std::env::set_var("GSIM_REPLAY_TIMEOUT_S", "3");
     let mut bad = 0;
-    for (key, want) in [("debug:hang", "hang"), ("debug:crash", "crash")] {
+    for (key, want) in [("debug:hang", "hang"), ("debug:crash", "crash"), ("debug:history", "history-dependent")] {
         let p = crate::check::run_part("SELFTEST", key, 7, 2000, crate::runner::Tier::Quick, 60, "n");
         match &p.violation {
-            Some((path, v)) if v.class == want => {
+            Some((path, v)) if v.class == want && (key != "debug:history" || path.ends_with("-sequence.json")) => {
                 println!("watchdog {key}: reported class={} replay={path}", v.class);
                 let _ = std::fs::remove_file(path);
             }
